@@ -833,6 +833,35 @@ pub fn run_linear(tkind: TKind, requests: u32) -> (u64, Vec<(String, String)>) {
             let mut expected = Disk::default();
             let mut n = 0u64;
             let mut i = 0u32;
+            // Long requests first: 130 and 257 sectors in one call (one request each, the data
+            // part being the caller's whole buffer), read back in one call and sector by sector.
+            for (start, nsec) in [(10u64, 130usize), (200, 257)] {
+                let buf: Vec<u8> = (0..512 * nsec).map(|k| ((k / 512) as u8).wrapping_mul(3).wrapping_add(k as u8).wrapping_add(nsec as u8)).collect();
+                let seen_before = co.borrow().served.len();
+                if blk.write_blocks(start as usize, &buf) != Ok(()) {
+                    out.push(("long-request".into(), format!("write_blocks({}, {} sectors) failed", start, nsec)));
+                    break;
+                }
+                let emitted = co.borrow().served.len() - seen_before;
+                if emitted != 1 {
+                    out.push(("request-count".into(), format!("write_blocks({}, {} sectors) sent {} requests, expected one", start, nsec, emitted)));
+                }
+                for (k, c) in buf.chunks(512).enumerate() {
+                    expected.sectors.insert(start + k as u64, c.to_vec());
+                }
+                let mut back = vec![0u8; 512 * nsec];
+                let r = blk.read_blocks(start as usize, &mut back);
+                if r != Ok(()) || back != buf {
+                    out.push(("long-request".into(), format!("read_blocks({}, {} sectors) -> {:?}, data {} what was written", start, nsec, r, if back == buf { "equal to" } else { "differing from" })));
+                }
+                for k in [0usize, 1, 127, 128, 129, nsec - 1] {
+                    if bd.borrow().disk.read(start + k as u64) != buf[512 * k..512 * k + 512] {
+                        out.push(("long-request".into(), format!("after write_blocks({}, {} sectors) sector {} of the device does not hold the caller's sector {}", start, nsec, start + k as u64, k)));
+                        break;
+                    }
+                }
+                n += 2;
+            }
             while i < self.requests {
                 let sector = (i % 7) as u64;
                 match i % 5 {
